@@ -97,6 +97,9 @@ func Gen(seed uint64, tier string) any {
 	if core.Chance(r, 4) {
 		sc.Key = 15 // RSASHA1-NSEC3-SHA1
 	}
+	if core.Chance(r, 5) {
+		sc.Key = 16 + r.IntN(2) // RSA moduli of 1031 and 1284 bits
+	}
 	if core.Chance(r, 8) {
 		sc.Parallel = 2 + r.IntN(3)
 		sc.Twins = core.Chance(r, 50)
